@@ -56,9 +56,11 @@ static u16 g_dmem[0x10000];
 static u16 g_pmem[0x40000];
 MemoryInterface::MemoryInterface(SharedMemory& sm, MemoryInterfaceUnit& miu) : shared_memory(sm), memory_interface_unit(miu) {}
 u16 MemoryInterface::ProgramRead(u32 a) const { return g_pmem[a & 0x3FFFF]; }
-void MemoryInterface::ProgramWrite(u32 a, u16 v) { g_pmem[a & 0x3FFFF] = v; }
+static unsigned g_wlog[64][3]; static int g_nw;
+static void wlog(unsigned sp, unsigned a, unsigned v) { if (g_nw < 64) { g_wlog[g_nw][0] = sp; g_wlog[g_nw][1] = a; g_wlog[g_nw][2] = v; } ++g_nw; }
+void MemoryInterface::ProgramWrite(u32 a, u16 v) { wlog(1, a, v); g_pmem[a & 0x3FFFF] = v; }
 u16 MemoryInterface::DataRead(u16 a, bool) { return g_dmem[a]; }
-void MemoryInterface::DataWrite(u16 a, u16 v, bool) { g_dmem[a] = v; }
+void MemoryInterface::DataWrite(u16 a, u16 v, bool) { wlog(0, a, v); g_dmem[a] = v; }
 }
 extern "C" {
 struct NativeMachine {
@@ -87,6 +89,9 @@ Interpreter* nm_interp(NativeMachine* m) { return m->interp; }
 RegisterState* nm_regs(NativeMachine* m) { return &m->regs; }
 u16* nm_dmem() { return g_dmem; }
 u16* nm_pmem() { return g_pmem; }
+int nm_wlog_n() { return g_nw; }
+unsigned nm_wlog(int k, int j) { return g_wlog[k][j]; }
+void nm_wlog_clear() { g_nw = 0; }
 int nm_try_row(NativeMachine* m, unsigned row, u16 o, u16 e) {
     static const auto table = GetDecodeTable<Interpreter>();
     try { table[row].call(*m->interp, o, e); return 0; } catch (const UnimplementedException&) { return 1; }
